@@ -18,7 +18,7 @@ ALL_METHODS = ["auto"] + LP_METHODS + NLP_CORE + NLP_MORE
 COEFS = [-3.0, -2.0, -1.0, -0.5, 0.5, 1.0, 1.5, 2.0, 3.0, 4.0]
 POS = [0.5, 1.0, 1.5, 2.0, 3.0]
 TARGETS = [-2.0, -1.0, 0.0, 0.5, 1.0, 2.0, 3.0, 5.0]
-PGRID = [-3.0, -1.5, -0.5, 0.5, 1.0, 2.0, 3.5, 5.0]
+PGRID = [-3.0, -1.5, -0.5, 0.0, 0.5, 1.0, 1.0, 2.0, 3.5, 5.0]
 
 
 def splitmix64(x):
@@ -86,6 +86,8 @@ def gen_vars(r, layout=None, int_frac=0.0, positive=False):
         d.update(kw)
         if d["domain"] == "binary" and r.random() < 0.5:
             d["lb"], d["ub"] = None, None  # else: binary declared with explicit (wider) bounds
+        if d["domain"] == "integer" and r.random() < 0.12:
+            d["lb"] = d["ub"] = r.choice([1.0, 2.0, 2.5, 0.5])  # pinned by its bounds (also to a fractional value)
         vs.append(d)
 
     if layout == "A":
@@ -132,7 +134,17 @@ def vec_handles(spec_vars):
 # --------------------------------------------------------------------------
 
 
-def lin_terms(r, names, kmin=1, kmax=4):
+def lin_terms(r, names, kmin=1, kmax=4, sp=None):
+    if sp is not None and r.random() < 0.35:
+        # a whole vector handle (so that c @ v, v.sum(), c @ (v + k) renderings apply)
+        vhs = [nm for _, nm in vec_handles(sp["vars"]) if all(n in names for n in nm)]
+        if vhs:
+            pick = list(r.choice(vhs))
+            rest = [n for n in names if n not in pick]
+            if rest and r.random() < 0.4:
+                pick.append(r.choice(rest))
+            ones = r.random() < 0.3
+            return [(1.0 if ones else r.choice(COEFS), n) for n in pick]
     k = min(len(names), r.randint(kmin, kmax))
     pick = r.sample(names, k)
     return [(r.choice(COEFS), n) for n in pick]
@@ -149,6 +161,12 @@ def render_linear(r, sp, terms, const=0.0, deep=0):
     for vec, names in vhs:
         if all(n in tnames for n in names) and not (set(names) & used) and r.random() < 0.7:
             cs = [next(c for c, n in terms if n == nm) for nm in names]
+            if r.random() < 0.3:
+                # coefficients times a shifted / scaled vector expression: c @ (x + k), c @ (2 * x)
+                inner = ["vshift", vec, r.choice([-1.0, 0.5, 1.0, 2.0])] if r.random() < 0.7 else ["vscale", vec, r.choice([0.5, 2.0])]
+                parts.append(["lincomb", cs, inner])
+                used |= set(names)
+                continue
             if all(c == 1.0 for c in cs) or r.random() < 0.25:
                 if all(c == 1.0 for c in cs):
                     parts.append(["vsum", vec])
@@ -269,7 +287,7 @@ def positive_elems(sp):
 
 
 def gen_lin_con(r, sp, names, sense=None):
-    terms = lin_terms(r, names, 1, 3)
+    terms = lin_terms(r, names, 1, 3, sp)
     rhs = r.choice([-2.0, 0.0, 0.5, 1.0, 2.0, 3.0, 6.0])
     lhs = render_linear(r, sp, terms, 0.0 if r.random() < 0.8 else r.choice([1.0, -1.0]))
     sense = sense or r.choice(["<=", ">=", "<=", ">=", "=="])
@@ -328,7 +346,7 @@ def gen_pool(r, kinds=("lin", "quad", "nl"), layout=None, int_frac=0.0, nobj=5, 
     for i in range(nobj):
         kind = kinds[i % len(kinds)] if i < len(kinds) else r.choice(kinds)
         if kind == "lin":
-            e = render_linear(r, sp, lin_terms(r, core, 1, 4), r.choice([0.0, 0.0, 5.0, -2.5]), deep=deep if r.random() < 0.5 else 0)
+            e = render_linear(r, sp, lin_terms(r, core, 1, 4, sp), r.choice([0.0, 0.0, 5.0, -2.5]), deep=deep if r.random() < 0.5 else 0)
         elif kind == "quad":
             e = gen_vecquad(r, sp) if r.random() < 0.35 else None
             if e is None:
@@ -357,6 +375,11 @@ def gen_pool(r, kinds=("lin", "quad", "nl"), layout=None, int_frac=0.0, nobj=5, 
             kind = "lin"
         sp["cons"][f"c{i}"] = c
         ckinds[f"c{i}"] = kind
+    mats = [d for d in sp["vars"] if d["kind"] == "matrix"]
+    if mats and r.random() < 0.6:
+        # evaluates fine but has no compiler case: every solve that compiles it must raise, every time
+        sp["cons"]["cu"] = {"k": "s", "lhs": ["msum", mats[0]["name"]], "sense": "<=", "rhs": ["num", r.choice([1.0, 3.0, 6.0])]}
+        ckinds["cu"] = "nl"
     sp["expr_order"] = sorted(sp["exprs"])
     sp["con_order"] = sorted(sp["cons"])
     meta = {"okinds": okinds, "ckinds": ckinds}
@@ -396,11 +419,51 @@ def gen_point(r, sp, names=None, positive=False):
 # C13 history machine (also carries C18's history facet)
 # --------------------------------------------------------------------------
 
-C13_METHODS = ["auto", "auto", "linprog", "highs-ds", "highs-ipm", "SLSQP", "trust-constr", "L-BFGS-B"]
+C13_METHODS = ["auto", "auto", "auto", "linprog", "linprog", "highs-ds", "highs-ipm", "highs", "SLSQP", "SLSQP", "trust-constr", "trust-constr",
+               "L-BFGS-B", "L-BFGS-B", "COBYLA", "TNC", "BFGS", "Newton-CG", "Nelder-Mead", "Powell", "CG"]
+
+
+def gen_lp_rotation(r):
+    """An LP whose objective is replaced again and again by other linear objectives over small,
+    different variable subsets (variables leave and enter the model, columns move), with LP-route
+    solves in between; constraints stay."""
+    from .world import DEFAULT_KNOBS
+
+    sp = {"name": "rot", "vars": gen_vars(r, r.choice(["A", "A", "B", "E"])), "params": [], "exprs": {}, "cons": {}}
+    names = S.all_element_names(sp)
+    for i in range(6):
+        sub = r.sample(names, r.choice([1, 2, 2, 3]))
+        sp["exprs"][f"o{i}"] = render_linear(r, sp, [(r.choice(COEFS), n) for n in sub], r.choice([0.0, 0.0, 2.0]))
+    for i in range(4):
+        sub = r.sample(names, r.choice([1, 1, 2]))
+        sp["cons"][f"c{i}"] = {"k": "s", "lhs": render_linear(r, sp, [(r.choice(POS), n) for n in sub]), "sense": r.choice(["<=", ">="]), "rhs": ["num", r.choice([0.5, 1.0, 2.0, 3.0])]}
+    sp["expr_order"] = sorted(sp["exprs"])
+    sp["con_order"] = sorted(sp["cons"])
+    ops = [["new_model", 0, sp], [r.choice(["minimize", "maximize"]), 0, "o0"]]
+    for c in r.sample(sorted(sp["cons"]), r.choice([1, 2, 2, 3])):
+        ops.append(["subject_to", 0, c])
+    lpm = ["auto", "auto", "linprog", "highs-ds", "highs-ipm", "highs"]
+    ops.append(["solve", 0, {"method": r.choice(lpm)}])
+    for _ in range(r.randint(3, 8)):
+        ops.append([r.choice(["minimize", "maximize"]), 0, r.choice(sorted(sp["exprs"]))])
+        if r.random() < 0.15:
+            ops.append(["subject_to", 0, r.choice(sorted(sp["cons"]))])
+        if r.random() < 0.2:
+            ops.append([r.choice(["read_variables", "read_bounds"]), 0])
+        ops.append(["solve", 0, {"method": r.choice(lpm + ["SLSQP"])}])
+    return {"knobs": dict(DEFAULT_KNOBS), "ops": ops}
 
 
 def gen_c13(r, int_frac=0.0, strict_frac=0.0, maxlen=None):
-    sp, meta = gen_pool(r, kinds=("lin", "quad", "nl", "lin"), int_frac=int_frac, nobj=6, ncon=8)
+    if int_frac == 0.0 and r.random() < 0.08:
+        return gen_redeclare(r)
+    if int_frac == 0.0 and r.random() < 0.1:
+        return gen_lp_rotation(r)
+    deep = r.choice([0, 0, 0, 4, 9])
+    if r.random() < 0.05:
+        deep = 405  # really deep linear objectives: iterative degree / variable / coefficient code
+    kinds = ("lin", "quad", "nl", "lin") if r.random() < 0.5 else ("lin", "lin", "lin", "quad", "lin", "nl")
+    sp, meta = gen_pool(r, kinds=kinds, int_frac=int_frac, nobj=6, ncon=8, deep=deep)
     knobs = gen_knobs(r, 0.6)
     ops = [["new_model", 0, sp]]
     onames = sorted(sp["exprs"])
@@ -409,23 +472,35 @@ def gen_c13(r, int_frac=0.0, strict_frac=0.0, maxlen=None):
     lin_objs = [o for o in onames if meta["okinds"][o] == "lin"]
     lin_cons = [c for c in cnames if meta["ckinds"][c] in ("lin", "vec", "newvar")]
     n = r.randint(3, maxlen or 22)
-    have_obj = False
+    have_obj = {0: False}
     bias_lp = r.random() < 0.5  # many runs stay on LP-capable states for a while
     attrs = S.elem_attrs(S.new_shadow(sp))
+    mids = [0]
+    if r.random() < 0.2:
+        # a second Problem over the same Variable / expression objects (bound edits are shared)
+        ops.append(["alias_model", 1, 0])
+        mids.append(1)
+        have_obj[1] = False
     for step in range(n):
         k = r.random()
-        if not have_obj and k < 0.9:
+        mid = r.choice(mids)
+        if not have_obj[mid] and k < 0.9:
             k = 0.0
         if k < 0.16:
             o = r.choice(lin_objs) if (bias_lp and r.random() < 0.7 and lin_objs) else r.choice(onames)
-            ops.append([r.choice(["minimize", "minimize", "maximize"]), 0, o])
-            have_obj = True
+            ops.append([r.choice(["minimize", "minimize", "maximize"]), mid, o])
+            have_obj[mid] = True
         elif k < 0.30:
             c = r.choice(lin_cons) if (bias_lp and r.random() < 0.7 and lin_cons) else r.choice(cnames)
-            ops.append(["subject_to", 0, c])
-        elif k < 0.34:
+            ops.append(["subject_to", mid, c])
+        elif k < 0.33:
             cs = r.sample(cnames, r.choice([1, 2, 3]))
-            ops.append(["subject_to_list", 0, cs])
+            ops.append(["subject_to_list", mid, cs])
+        elif k < 0.345:
+            # a call that fails half-way: a list of scalar constraints with an invalid element
+            cs = [c for c in r.sample(cnames, r.choice([2, 3])) if sp["cons"][c]["k"] == "s"]
+            if cs:
+                ops.append(["subject_to_bad", mid, cs, r.randint(0, len(cs))])
         elif k < 0.46:
             e = r.choice(elems)
             lb, ub, dom = attrs[e]
@@ -452,7 +527,7 @@ def gen_c13(r, int_frac=0.0, strict_frac=0.0, maxlen=None):
                 ops.append(["set_domain", 0, e, nd])
                 attrs[e][2] = nd
         elif k < 0.58:
-            ops.append([r.choice(["read_variables", "read_n", "read_bounds", "repr", "summary", "read_variables"]), 0])
+            ops.append([r.choice(["read_variables", "read_n", "read_bounds", "repr", "summary", "read_variables"]), mid])
         else:
             a = {"method": r.choice(C13_METHODS)}
             if r.random() < strict_frac:
@@ -463,9 +538,15 @@ def gen_c13(r, int_frac=0.0, strict_frac=0.0, maxlen=None):
                 a["maxiter"] = r.choice([1, 2, 5, 50])
             if r.random() < 0.08:
                 a["tol"] = r.choice([1e-4, 1e-8])
-            ops.append(["solve", 0, a])
-    if ops[-1][0] != "solve":
-        ops.append(["solve", 0, {"method": r.choice(C13_METHODS)}])
+            if r.random() < 0.15:
+                a["x0_prev"] = True
+            if r.random() < 0.05:
+                # a transient failure while the solve builds its caches (k-th compile call raises)
+                a["fault"] = {"site": "compile", "k": r.choice([1, 2, 3, 4, 5, 7]), "exc": r.choice(["MemoryError", "RecursionError", "ValueError", "KeyboardInterrupt"])}
+            ops.append(["solve", mid, a])
+    for mid in mids:
+        if have_obj[mid]:
+            ops.append(["solve", mid, {"method": r.choice(C13_METHODS)}])
     return {"knobs": knobs, "ops": ops}
 
 
@@ -560,7 +641,7 @@ def _gen_order(r, sp, need):
     order = list(need)
     extra = [n for n in names if n not in need]
     r.shuffle(extra)
-    order += extra[: r.choice([0, 0, 1, 2])]
+    order += extra[: r.choice([0, 0, 1, 2, 3])]
     if r.random() < 0.5:
         r.shuffle(order)
     else:
@@ -581,6 +662,9 @@ def gen_handle(r, sp, hid, enames):
             need |= S.mentioned(sp, sp["exprs"][e])
         return ["compile", 0, hid, "jac", {"es": es, "order": _gen_order(r, sp, sorted(need, key=S.natural_key))}]
     e = r.choice(enames)
+    bare = [b for b in ("b0", "b1", "b2") if b in sp["exprs"]]
+    if bare and r.random() < 0.15:
+        e = r.choice(bare)
     if kind == "hess" and sp.get("hess_pref") and r.random() < 0.5:
         e = r.choice([h for h in sp["hess_pref"] if h in sp["exprs"]] or [e])
     need = sorted(S.mentioned(sp, sp["exprs"][e]), key=S.natural_key)
@@ -602,6 +686,8 @@ def gen_param_op(r, sp):
 def gen_c12(r):
     knobs = gen_knobs(r, 0.45)
     deep = r.choice([0, 0, 3, 8]) if knobs["thr_compiler"] != 400 or knobs["thr_autodiff"] != 400 else 0
+    if r.random() < 0.05:
+        deep = 405  # really deep: iterative code paths under the shipped thresholds too
     sp, meta = gen_c12_pool(r, deep)
     ops = [["new_model", 0, sp]]
     enames = sorted(sp["exprs"])
@@ -645,6 +731,8 @@ def gen_c12(r):
                 a["r2"] = "lp"
             if r.random() < 0.1:
                 a["use_hessian"] = False
+            if r.random() < 0.25:
+                a["x0_prev"] = True  # rolling-horizon pattern: warm start at the previous optimum
             ops.append(["solve", 0, a])
         elif k < 0.75 and hids:
             h = r.choice(hids)
@@ -686,8 +774,12 @@ def _add_bare_leaves(r, sp):
     if sp["params"]:
         d = sp["params"][0]
         sp["exprs"]["b0"] = ["param", d["name"]] if d["kind"] == "scalar" else ["pel", d["name"], 0]
-    n = r.choice([n for n in S.all_element_names(sp)])
+    names = S.all_element_names(sp)
+    n = r.choice(names)
     sp["exprs"]["b1"] = ref_of(sp, n)
+    # a plain product of two variables: its gradient entries are bare Variables
+    a, b = (r.sample(names, 2) + [n])[:2]
+    sp["exprs"]["b2"] = ["*", ref_of(sp, a), ref_of(sp, b)]
     sp["expr_order"] = sorted(sp["exprs"])
 
 
@@ -759,7 +851,14 @@ def gen_observations(r, sp, mid, hids, nmax=4, methods=C14_METHODS):
         elif k < 0.65:
             ops.append(["evaluate", mid, r.choice(enames), gen_point(r, sp)])
         else:
-            ops.append(["solve", mid, {"method": r.choice(methods)}])
+            a = {"method": r.choice(methods)}
+            if r.random() < 0.2:
+                a["maxiter"] = r.choice([1, 2, 3, 7])
+            if r.random() < 0.1:
+                a["tol"] = r.choice([1e-3, 1e-9])
+            if r.random() < 0.1:
+                a["use_hessian"] = False
+            ops.append(["solve", mid, a])
     return ops
 
 
@@ -844,6 +943,26 @@ def gen_c14_churn(r, tier="quick"):
     return {"knobs": knobs, "ops": ops}
 
 
+def _reorder_script(r, ops):
+    """The same script with every handle's variable order permuted *inside* (first and last
+    names and the length kept): the adversary compiles the same leaves at other columns."""
+    import copy
+
+    out = []
+    for op in ops:
+        op = copy.deepcopy(op)
+        if op[0] == "compile":
+            order = op[4]["order"]
+            if len(order) >= 4:
+                mid = order[1:-1]
+                r.shuffle(mid)
+                op[4]["order"] = [order[0]] + mid + [order[-1]]
+            elif len(order) == 3 and r.random() < 0.5:
+                op[4]["order"] = [order[1], order[0], order[2]]
+        out.append(op)
+    return out
+
+
 def gen_c14(r, tier="quick"):
     if r.random() < 0.15:
         return gen_c14_churn(r, tier)
@@ -878,7 +997,8 @@ def gen_c14(r, tier="quick"):
         if twin_script:
             # the adversary does exactly what M does: same cache keys, other meaning
             ops.extend(_retarget(o, mid) for o in setup)
-            ops.extend(_retarget(o, mid) for o in obsM)
+            script = _reorder_script(r, obsM) if r.random() < 0.5 else obsM
+            ops.extend(_retarget(o, mid) for o in script)
         else:
             ops.extend(_setup_ops(r, A, mid))
             ops.extend(gen_observations(r, A, mid, [], 3))
@@ -1105,12 +1225,45 @@ def entered_method(method, sh, okind, ckinds, parametric=False):
     return "SLSQP"
 
 
+def gen_c06_param(r):
+    """Parametric constraints, several rounds of Parameter.set + re-solve through the cached
+    closures (the feasibility check must use the constraint as currently parameterised)."""
+    from .world import DEFAULT_KNOBS
+
+    knobs = dict(DEFAULT_KNOBS)
+    if r.random() < 0.7:
+        knobs["thr_compiler"] = r.choice([2, 3, 6])
+        knobs["thr_autodiff"] = r.choice([400, 2, 3])
+    sp, _ = gen_c12_pool(r, deep=r.choice([0, 3, 8]))
+    for g in [e for e in sp["exprs"] if e.startswith("g")]:
+        del sp["exprs"][g]
+    sp["expr_order"] = sorted(sp["exprs"])
+    ops = [["new_model", 0, sp], ["minimize", 0, r.choice(["o0", "o0", "o1", "o3"])]]
+    cands = [c for c in ("c0", "c1", "c3", "c5", "c6", "c4") if c in sp["cons"]]
+    for c in r.sample(cands, r.choice([1, 2, 3])):
+        ops.append(["subject_to", 0, c])
+    method = r.choice(["SLSQP", "trust-constr", "auto", "COBYLA", "SLSQP"])
+    ops.append(["solve", 0, {"method": method}])
+    for _ in range(r.randint(1, 3)):
+        for _ in range(r.choice([1, 2])):
+            ops.append(gen_param_op(r, sp))
+        a = {"method": method if r.random() < 0.7 else r.choice(["SLSQP", "trust-constr", "auto"])}
+        if r.random() < 0.3:
+            a["x0_prev"] = True
+        ops.append(["solve", 0, a])
+    return {"knobs": knobs, "ops": ops}
+
+
 def gen_c06(r, tier="quick", c07=False):
+    if not c07 and r.random() < 0.15:
+        return gen_c06_param(r)
     knobs = gen_knobs(r, 0.7)
     kinds = r.choice([("lin",), ("lin", "quad"), ("quad", "nl"), ("lin", "quad", "nl")])
     parametric = r.random() < 0.25
     if parametric:
-        sp, m12 = gen_c12_pool(r)
+        if r.random() < 0.5:
+            knobs = gen_knobs(r, 0.0)
+        sp, m12 = gen_c12_pool(r, deep=r.choice([0, 0, 3, 8]))
         meta = {"okinds": {o: ("lin" if o == "o4" else "nl") for o in sp["exprs"]},
                 "ckinds": {c: ("nl" if c == "c4" else "lin") for c in sp["cons"]}, "parametric": True}
         for g in [e for e in sp["exprs"] if e.startswith("g")]:
@@ -1132,7 +1285,7 @@ def gen_c06(r, tier="quick", c07=False):
         r.shuffle(cs)
     for c in cs:
         ops.append(["subject_to", 0, c])
-    for si in range(r.choice([1, 1, 2, 3])):
+    for si in range(r.choice([2, 3, 3]) if parametric else r.choice([1, 1, 2, 3])):
         sh = _state_after(ops)
         method = r.choice(C06_METHODS)
         a = {"method": method}
@@ -1155,6 +1308,9 @@ def gen_c06(r, tier="quick", c07=False):
             if ent == "SLSQP" and r.random() < 0.6:
                 peers.append(gen_peer(r, "trust-constr", sh, entry=1))
             a["peers"] = peers
+        if r.random() < 0.06:
+            b = {"method": a["method"], "fault": {"site": "compile", "k": r.choice([1, 2, 3, 4, 5, 7]), "exc": r.choice(["MemoryError", "RecursionError", "ValueError"])}}
+            ops.append(["solve", 0, b])  # the first attempt dies while building its caches; then the retry
         ops.append(["solve", 0, a])
         k = r.random()
         if k < 0.15:
@@ -1167,8 +1323,10 @@ def gen_c06(r, tier="quick", c07=False):
                 ops.append(["maximize" if cur["sense"] == "min" else "minimize", 0, cur["objective"]])
             else:
                 ops.append([r.choice(["minimize", "maximize"]), 0, r.choice(sorted(sp["exprs"]))])
-        elif k < 0.5 and sp["params"]:
+        elif (k < 0.5 or (parametric and k < 0.85)) and sp["params"]:
             ops.append(gen_param_op(r, sp))
+            if r.random() < 0.5:
+                ops.append(gen_param_op(r, sp))
         elif k < 0.6:
             e = r.choice(sorted(S.problem_vars(_state_after(ops)), key=S.natural_key) or ["w"])
             at = S.elem_attrs(_state_after(ops))[e]
@@ -1198,7 +1356,10 @@ HESS_METHODS = ["trust-constr", "Newton-CG"]
 def gen_c20_scenario(r):
     """Prefix ops, the solve to be faulted (without fault) and suffix ops."""
     kinds = r.choice([("lin",), ("quad",), ("quad", "nl"), ("lin", "quad", "nl")])
-    sp, meta = gen_pool(r, kinds=kinds, nobj=3, ncon=5)
+    deep = 405 if r.random() < 0.12 else 0  # really deep trees: the iterative compiler / gradient paths
+    if deep:
+        kinds = ("lin", "lin", "quad")
+    sp, meta = gen_pool(r, kinds=kinds, nobj=3, ncon=5, deep=deep)
     ops = [["new_model", 0, sp]]
     o = r.choice(sorted(sp["exprs"]))
     ops.append([r.choice(["minimize", "minimize", "maximize"]), 0, o])
@@ -1206,10 +1367,10 @@ def gen_c20_scenario(r):
         ops.append(["subject_to", 0, c])
     sh = _state_after(ops)
     lin = meta["okinds"][o] == "lin" and all(meta["ckinds"][c] in ("lin", "vec", "newvar") for c in sh["cons"])
-    if lin and r.random() < 0.7:
+    if lin and r.random() < (0.3 if deep else 0.7):
         method = r.choice(["auto", "linprog", "highs-ds", "highs-ipm"])
     else:
-        method = r.choice(C20_NLP)
+        method = r.choice(C20_NLP if not deep else ["SLSQP", "trust-constr", "L-BFGS-B", "BFGS", "TNC"])
     warm = r.random() < 0.5
     if warm:
         # caches warm; hess_fn present or absent depending on the warm-up method
@@ -1222,8 +1383,10 @@ def gen_c20_scenario(r):
     target = ["solve", 0, a]
     suffix = [["solve", 0, {"method": method}], ["solve", 0, {"method": r.choice(HESS_METHODS + ["auto", "SLSQP"])}]]
     if r.random() < 0.3:
+        suffix[0][2]["x0_prev"] = True
+    if r.random() < 0.3:
         suffix.insert(1, ["read_bounds", 0])
-    return {"prefix": ops, "target": target, "suffix": suffix, "lin": lin, "sh": sh, "meta": meta}
+    return {"prefix": ops, "target": target, "suffix": suffix, "lin": lin, "sh": sh, "meta": meta, "deep": deep}
 
 
 def with_fault(target, fault, reclimit=None, peers=None):
@@ -1273,6 +1436,8 @@ def gen_c20(r, tier="quick"):
             peers = [{"mode": "scripted", "entry": 0, "cls": "slsqp-0", "success": True, "status": 0,
                       "message": "Optimization terminated successfully", "x": r.choice(pts["cviol"]), "xkind": "cviol"}]
     fault = gen_fault(r, lp=lp_target)
+    if sc["deep"] and r.random() < 0.5:
+        fault["exc"] = "KeyboardInterrupt"  # the class that only `finally` (not `except Exception`) handles
     if peers and peers[0]["cls"] == "slsqp-0":
         fault["entry"] = 1
         if fault["site"] == "cb":
@@ -1289,7 +1454,52 @@ def gen_c20(r, tier="quick"):
 # --------------------------------------------------------------------------
 
 
+def redeclared_spec(r, sp, int_frac=0.5):
+    """Same names and expressions; other domains / bounds / parameter values."""
+    import copy
+
+    m = copy.deepcopy(sp)
+    for d in m["vars"]:
+        k = r.random()
+        if k < int_frac:
+            d["domain"] = r.choice(["integer", "integer", "binary"]) if d.get("domain", "continuous") == "continuous" else "continuous"
+        if r.random() < 0.4 and d.get("domain") != "binary":
+            d["lb"], d["ub"] = gen_bounds(r)
+    for d in m.get("params", []):
+        if d["kind"] == "scalar":
+            d["value"] = r.choice(PGRID)
+    m.pop("ov", None)
+    return m
+
+
+def gen_redeclare(r, int_frac=0.0, strict_frac=0.0):
+    """Constraint-free problem: solve, re-declare the variables under the same names, install an
+    objective built from the new objects, solve again (the variable list must be the new objects)."""
+    sp, meta = gen_pool(r, kinds=("lin", "quad", "nl", "lin"), int_frac=int_frac, nobj=5, ncon=1)
+    knobs = gen_knobs(r, 0.7)
+    onames = sorted(sp["exprs"])
+    ops = [["new_model", 0, sp], [r.choice(["minimize", "maximize"]), 0, r.choice(onames)]]
+
+    def solve():
+        a = {"method": r.choice(C13_METHODS)}
+        if r.random() < strict_frac:
+            a["strict"] = True
+        return ["solve", 0, a]
+
+    for _ in range(r.randint(1, 3)):
+        ops.append(solve() if r.random() < 0.7 else [r.choice(["read_variables", "read_bounds", "repr"]), 0])
+    cur = sp
+    for _ in range(r.choice([1, 1, 2])):
+        cur = redeclared_spec(r, cur, max(int_frac, 0.3))
+        ops.append(["redeclare", 0, cur, r.choice(["minimize", "maximize"]), r.choice(onames)])
+        for _ in range(r.randint(1, 3)):
+            ops.append(solve() if r.random() < 0.75 else [r.choice(["read_variables", "read_bounds"]), 0])
+    return {"knobs": knobs, "ops": ops}
+
+
 def gen_c18(r, tier="quick"):
+    if r.random() < 0.12:
+        return gen_redeclare(r, int_frac=0.4, strict_frac=0.45)
     return gen_c13(r, int_frac=r.choice([0.3, 0.6, 1.0]), strict_frac=0.45, maxlen=16)
 
 
@@ -1298,7 +1508,9 @@ def c18_sweep_cases(tier):
     from .world import DEFAULT_KNOBS
 
     knobs = dict(DEFAULT_KNOBS)
-    methods = ALL_METHODS if tier == "thorough" else ["auto", "linprog", "highs-ipm", "SLSQP", "trust-constr", "L-BFGS-B", "BFGS", "COBYLA", "Nelder-Mead"]
+    methods = ALL_METHODS if tier == "thorough" else ["auto", "linprog", "SLSQP", "trust-constr", "L-BFGS-B", "COBYLA"]
+    quick = tier != "thorough"
+    count = 0
     decls = {
         "scalar": ({"kind": "scalar", "name": "b"}, [("elem", ["elem", "b"], ["var", "b"])]),
         "vector": ({"kind": "vector", "name": "b", "n": 3}, [
@@ -1320,12 +1532,14 @@ def c18_sweep_cases(tier):
             ("mT", ["mT", "b"], ["mel", "b", 0, 1]),
         ]),
     }
-    for dom in ("integer", "binary", "binary-wide"):
+    for dom in ("integer", "binary", "binary-wide", "integer-pinned"):
         for dname, (decl, routes) in decls.items():
             for rname, route, e in routes:
                 d = dict(decl, domain=dom.split("-")[0])
                 if dom == "integer":
                     d["lb"], d["ub"] = 0.0, 4.0
+                elif dom == "integer-pinned":
+                    d["lb"], d["ub"] = 1.5, 1.5  # bounds pin the integer to a fractional value: still integer
                 elif dom == "binary-wide":
                     d["lb"], d["ub"] = -2.0, 3.0  # declared wider than [0,1]: binary must still carry [0,1]
                 sp = {
@@ -1340,7 +1554,8 @@ def c18_sweep_cases(tier):
                 }
                 sp["expr_order"] = sorted(sp["exprs"])
                 sp["con_order"] = sorted(sp["cons"])
-                for oname in ("olin", "oquad"):
+                count += 1
+                for oname in (("olin", "oquad")[count % 2 :][:1] if quick else ("olin", "oquad")):
                     for meth in methods:
                         ops = [["new_model", 0, sp], ["read_elems", 0, route], ["minimize", 0, oname], ["subject_to", 0, "c0"],
                                ["solve", 0, {"method": meth, "strict": True}],
